@@ -223,6 +223,7 @@ class Engine:
         self.outcome = []
         self.notes = []
         self.fp_mode = False
+        self.has_int = False
 
     # ---- variables
     def new_var(self, name, kind, info=None):
@@ -354,6 +355,7 @@ class Engine:
 
     def _fallback(self, extra, first=False):
         st = self.stats
+
         st.fallback_nlsat += 1
         r = self._nlsat(extra, self.slow_timeout_ms)
         if r in ('sat', 'unsat'):
@@ -445,6 +447,18 @@ class Engine:
             if d == 0:
                 raise _Ambiguous()
             r = _num_div(n, d)
+        elif k == 'round':
+            import math
+            x = self.peval(v['info'][0])
+            sc = 10 ** v['info'][1]
+            if isinstance(x, Decimal):
+                y = x * sc + Decimal('0.5')
+                fl = y.to_integral_value(rounding='ROUND_FLOOR')
+                if abs(y - fl) < _EPS_AMBIG or abs(y - fl - 1) < _EPS_AMBIG:
+                    raise _Ambiguous()
+                r = Fraction(int(fl), sc)
+            else:
+                r = Fraction(math.floor(x * sc + Fraction(1, 2)), sc)
         elif k == 'ite':
             t, pa, pb = v['info']
             b = self.teval(t)
@@ -654,6 +668,21 @@ class Engine:
         self.div_memo[k] = vid
         z = self.vars[vid]['z']
         self.assume_z(z * self.pz(den) == self.pz(num), keeps_assignment=True)
+        return vid
+
+    def round_atom(self, p, n):
+        """decimal rounding of p to n digits as a fresh real variable z with |z - p| <= 10^-n / 2.  The grid membership of
+        z is not encoded (no integer terms in the path condition); a comparison of z with a *concrete* decimal c is made
+        exact by shims.leaf_eq (fork on "p lies in c's rounding cell", then z == c or |z - c| >= 10^-n)."""
+        k = ('round', p.key(), n)
+        if k in self.div_memo:
+            return self.div_memo[k]
+        vid = self.new_var('rnd', 'round', (p, n))
+        self.div_memo[k] = vid
+        z = self.vars[vid]['z']
+        h = z3.Q(1, 2 * 10 ** n)
+        zp = self.pz(p)
+        self.assume_z(z3.And(z - zp <= h, zp - z <= h), keeps_assignment=True)
         return vid
 
     # ---- polynomial multiplication with r^2 -> radicand
